@@ -597,3 +597,32 @@ func recvCallOn(info *types.Info, call *ast.CallExpr, pkgpath, typeName, method 
 	np := namedPath(info.TypeOf(sel.X))
 	return np == pkgpath+"."+typeName || np == modPath+"/"+pkgpath+"."+typeName
 }
+
+
+// deepInspect visits the nodes of fr's body and, for every call to a function of the same package, the nodes of that
+// function's body too (transitively up to depth), so that a rule looking for a construct "in F" still finds it
+// after the construct was extracted into a helper of the package. visit receives the types.Info of the file the
+// node belongs to.
+func deepInspect(p *Prog, fr *FuncRef, depth int, visit func(n ast.Node, info *types.Info) bool) {
+	seen := map[*ast.FuncDecl]bool{}
+	var rec func(fr *FuncRef, d int)
+	rec = func(fr *FuncRef, d int) {
+		if fr == nil || fr.Decl.Body == nil || seen[fr.Decl] {
+			return
+		}
+		seen[fr.Decl] = true
+		info := fr.Info()
+		ast.Inspect(fr.Decl.Body, func(n ast.Node) bool {
+			if !visit(n, info) {
+				return false
+			}
+			if call, ok := n.(*ast.CallExpr); ok && d > 0 {
+				if fn := Callee(info, call); fn != nil && fn.Pkg() == fr.Pkg.Types {
+					rec(p.DeclOf(fn), d-1)
+				}
+			}
+			return true
+		})
+	}
+	rec(fr, depth)
+}
